@@ -5,7 +5,7 @@ correspond:  outcome kind (value / error enum) of every constant node: Lean `fol
 oracle:      every generated well-typed construction either returns or raises a documented claripy error; 5 s alarm
              and an address-space limit turn hangs / memory blow-ups into observable failures
 """
-import collections, resource
+import collections, signal, resource
 
 from lib import exprs as E, exprgen as G, exprcheck as X
 
@@ -164,6 +164,59 @@ def wide_int_to_str(ctx, rng, kinds, dist):
                 break
 
 
+def guarded_paths(ctx, rng, kinds, dist):
+    """the same extreme operations reached by the OTHER ways a constant node comes into being: an operand carrying an annotation
+    that rewrites must respect (the simplifier's proposal is refused, the node is folded or kept raw), and a variable replaced
+    by the extreme constant afterwards (replace / replace_dict rebuild nodes without the simplifier)"""
+    import claripy
+
+    class Pinned(claripy.Annotation):
+        eliminatable = False
+        relocatable = False
+
+    old_handler = signal.signal(signal.SIGALRM, X._alarm)
+    for i in range(ctx.pick(400, 6000)):
+        w = rng.choice([8, 32, 64, 64, 128])
+        big = [(1 << w) - 1, 1 << (w - 1), (1 << w) - 2, w, w + 1, w - 1, 1 << min(w - 1, 62), 1 << min(w - 1, 31), 0, 1]
+        op = rng.choice(["shl", "lshr", "ashr", "rotl", "rotr", "mul", "udiv", "sdiv", "umod", "add", "sub"])
+        val = claripy.BVV(rng.choice([1, 3, (1 << w) - 1, rng.getrandbits(w)]), w)
+        amt_v = rng.choice(big) % (1 << w)
+        how = rng.choice(["annotated-amount", "annotated-value", "annotated-avoid", "replace", "replace_dict", "nested-replace"])
+        ctx.count()
+        dist["G." + how] += 1
+        desc = "%s(%#x, %#x) at %d bits via %s" % (op, val.args[0], amt_v, w, how)
+        try:
+            signal.alarm(5)
+            try:
+                if how.startswith("annotated"):
+                    an = claripy.annotation.SimplificationAvoidanceAnnotation() if how == "annotated-avoid" else Pinned()
+                    a_, b_ = val, claripy.BVV(amt_v, w)
+                    if how == "annotated-value":
+                        a_ = a_.annotate(an)
+                    else:
+                        b_ = b_.annotate(an)
+                    r = E.apply_op(op, [a_, b_])
+                else:
+                    y = claripy.BVS("c04g", w, explicit_name=True)
+                    e = E.apply_op(op, [val, y])
+                    if how == "nested-replace":
+                        e = (e ^ 1) + E.apply_op(op, [val + 1, y])
+                    r = claripy.replace(e, y, claripy.BVV(amt_v, w)) if how != "replace_dict" else claripy.replace_dict(e, {y.hash(): claripy.BVV(amt_v, w)})
+            finally:
+                signal.alarm(0)
+            kinds["ok"] += 1
+            ctx.distinct(desc)
+        except claripy.errors.ClaripyError as ex:
+            kinds[type(ex).__name__] += 1
+            if type(ex).__name__ not in ("ClaripyZeroDivisionError",):
+                kinds["claripy-error-in-guarded-path"] += 1
+        except (MemoryError, RecursionError, TimeoutError, Exception) as ex:  # noqa
+            k = type(ex).__name__
+            ctx.violation("C04/%s/%s/%s" % (op, k, how.split("-")[0]), "building %s raised %s: %s" % (desc, k, str(ex)[:120]),
+                          {"kind": "guarded", "op": op, "bits": w, "value": val.args[0], "amount": amt_v, "how": how})
+    signal.signal(signal.SIGALRM, old_handler)
+
+
 def well_typed_reverse_nonbyte(tree):
     if tree[0] == "reverse":
         w = E.width(tree[1])
@@ -247,6 +300,7 @@ def run(ctx):
                           {"tree": small, "exception": k, "message": str(e2 or e)[:300], "template": name})
         fp_str_stream(ctx, rng, kinds, dist)
         wide_int_to_str(ctx, rng, kinds, dist)
+        guarded_paths(ctx, rng, kinds, dist)
     finally:
         resource.setrlimit(resource.RLIMIT_AS, (soft, hard))
     if fold_lines:
